@@ -1,4 +1,5 @@
 #![allow(dead_code, unused_imports)]
+mod corpus;
 mod mon;
 mod pipe;
 mod pool;
